@@ -2,9 +2,12 @@
    commands.ts recover, for one command, the parameter schema, the declaration of the Params type
    and the shape of the second argument of invoke, as a Model/C04Model.gen, to which the shared
    resolution C04Model.invoke_keys is then applied.
-   Keys are read tolerantly - the run of tokens in key position, concatenated - so that a key
-   that is not an identifier (kebab-case conventions: user-id) is still reported as written;
-   whether such a module is valid TypeScript is property C01, not C04. Definitions only. *)
+   Keys are read as the run of tokens in key position, concatenated: an identifier, a number, or
+   (since the repair C01-bare-key-quote, for every serialized name that is not an identifier name:
+   kebab cases, digit-first keys, the empty key) one double-quoted string literal, whose body is the
+   key; the matching access is params.k or params["k"]. A bare non-identifier key (user-id, what the
+   tool printed before that repair) would still be reported as written - its validity is C01, not C04.
+   Definitions only. *)
 From Coq Require Import String Ascii.
 From Coq Require Import List Arith Bool.
 Require Import TT.Model.Str TT.Spec.TsLex TT.Model.C04Case TT.Model.C04Model.
